@@ -449,6 +449,22 @@ def check_add_vars(ctx, F, rule="E-VNM.addvars"):
                 if len(me.unique_table) != nmap or ("extend", [nmap]) not in me.var_level_map.calls or me.var_name_map is not the_map:
                     fails.append("%s: level table %d long, var/level map calls %r, name map adopted: %r" %
                                  (sit, len(me.unique_table), me.var_level_map.calls, me.var_name_map is the_map))
+        # a manager that already has variables must not adopt the map (it would drop the existing names and leave the
+        # level table short): the call is handed to add_named_vars
+        holder = {}
+
+        def mk(oracle):
+            holder["d"] = D()
+            return Interp(F, holder["d"], oracle)
+        old_names = Rec("vnm", n=2)
+        me = Rec("manager", unique_table=[Opaque("level")] * 2, var_level_map=Rec("vlm", n=2), var_name_map=old_names, data=Rec("data", n=0))
+        the_map = Rec("map", n=3)
+        for trace, (status, val) in enumerate_runs(mk, lambda it: it.call_fn(fids["add_named_vars_from_map"], [me, the_map])):
+            n += 1
+            delegated = [c for c in me.calls if c[0] == "add_named_vars"]
+            if status != "ok" or me.var_name_map is not old_names or len(delegated) != 1 or len(me.unique_table) != 2 or me.var_level_map.calls:
+                fails.append("add_named_vars_from_map on a manager with 2 variables: %s; name map replaced: %r, delegated to add_named_vars: %d time(s), "
+                             "level table %d long" % (status, me.var_name_map is not old_names, len(delegated), len(me.unique_table)))
         ctx.ob(rule, "%s:%s" % (rule, crate), not fails, "%s add_vars / add_named_vars_from_map: %s" % (crate, " || ".join(fails[:3]) if fails else
                "tables grow by the number of new variables and the returned range names exactly them"))
     return n
